@@ -120,7 +120,7 @@ def required_labels(tier):
 
 
 def phases(tier, seed):
-    n = 9600 if tier == 'quick' else 40000
+    n = 9600 if tier == 'quick' else 300000
     return [
         Enum('levels', lambda: level_cases(tier), exhaustive=True,
              note='exact-fit lengths of every level of the listed versions x requested level x boost x version requested'),
